@@ -328,6 +328,12 @@ func (r *c09Runner) script() {
 			return
 		}
 	}
+	if r.ing != nil {
+		if tk, total, infl := r.ing.VerifIdle(); tk != total || infl != 0 {
+			r.violate("ticket_leak", "after all clients returned the ingestor holds %d of %d rate-limit tickets and counts %d requests in flight", tk, total, infl)
+			return
+		}
+	}
 	// bounded liveness: faults stop, breakers get their sleep window, then a bulk must go through
 	r.calm = true
 	ok := false
